@@ -24,6 +24,7 @@ class CERaise(Exception):
 
     def __init__(self, etype, msg=""):
         self.etype, self.msg = etype, msg
+        self.where = None
 
     def __str__(self):
         return f"{self.etype}: {self.msg}"
@@ -372,6 +373,14 @@ class CE:
             raise Unsupported(f"step budget exceeded in {f.fq}")
 
     def stmt(self, st, env, f):
+        try:
+            return self._stmt(st, env, f)
+        except CERaise as ex:
+            if getattr(ex, "where", None) is None and not isinstance(st, (ast.For, ast.While, ast.If, ast.With, ast.Try)):
+                ex.where = f"{pyfacts.where(f, st)} [{pyfacts.norm_stmt(st)[:80]}]"      # innermost statement
+            raise
+
+    def _stmt(self, st, env, f):
         self.tick(st, f)
         t = type(st)
         if t is ast.Expr:
